@@ -372,12 +372,12 @@ class _CppSwapTranslator(TranslatorBase):
 
 
 HEADER_TEMPLATE = """\
-#ifndef _PROPHY_GENERATED_{base_name}_HPP
-#define _PROPHY_GENERATED_{base_name}_HPP
+#ifndef _PROPHY_GENERATED_{guard_name}_HPP
+#define _PROPHY_GENERATED_{guard_name}_HPP
 
 #include <prophy/prophy.hpp>
 
-{content}#endif  /* _PROPHY_GENERATED_{base_name}_HPP */
+{content}#endif  /* _PROPHY_GENERATED_{guard_name}_HPP */
 """
 
 
